@@ -4,12 +4,14 @@ Cases are abstract (names / rdata are small integers, see coq/Model/XfrM.v); the
 side turns them into real wire messages, pushes them through dns.query._inbound_xfr (fake TCP
 socket / AF_UNIX datagram socket pair) on dns.zone.Zone, dns.versioned.Zone or dns.btreezone.Zone
 and dumps the zone afterwards."""
+import asyncio
 import base64
 import itertools
 import socket
 import struct
 import time
 
+import dns.asyncquery
 import dns.btreezone
 import dns.exception
 import dns.flags
@@ -241,14 +243,86 @@ class FakeTCP:
         return len(data)
 
 
+class FakeAsyncTCP:
+    """a dns.asyncbackend.StreamSocket look-alike for dns.asyncquery._inbound_xfr"""
+    type = socket.SOCK_STREAM
+
+    def __init__(self, wires):
+        self.buf = b"".join(struct.pack("!H", len(w)) + w for w in wires)
+        self.pos = 0
+
+    async def sendall(self, what, timeout):
+        return None
+
+    async def recv(self, size, timeout):
+        d = self.buf[self.pos:self.pos + size]
+        self.pos += len(d)
+        return d
+
+
+class FakeAsyncUDP:
+    type = socket.SOCK_DGRAM
+
+    def __init__(self, wires):
+        self.wires = list(wires)
+
+    async def sendto(self, what, destination, timeout):
+        return len(what)
+
+    async def recvfrom(self, size, timeout):
+        if not self.wires:
+            raise dns.exception.Timeout
+        return self.wires.pop(0), None
+
+
+def run_driver_async(z, q, ser, udp, wires):
+    box = [0]
+
+    async def wrap():
+        # count the yielded messages even when the generator raises
+        sock = FakeAsyncUDP(wires) if udp else FakeAsyncTCP(wires)
+        agen = dns.asyncquery._inbound_xfr(z, sock, q, ser, None, time.time() + 5)
+        try:
+            async for _ in agen:
+                box[0] += 1
+        finally:
+            await agen.aclose()
+    try:
+        asyncio.run(wrap())
+    except Exception as e:  # noqa
+        return exc_code(e), box[0]
+    return Err(0), box[0]
+
+
+def dump_checked(z, rel):
+    """the zone content, read by iteration and cross-checked against point lookups"""
+    out = dump_zone(z, rel)
+    with z.reader() as txn:
+        names = set()
+        for n, t, cv, ttl, ds in out:
+            rds = txn.get(zname(n, rel), t, cv)
+            if rds is None or int(rds.ttl) != ttl or sorted(rd_id(t, cv, rd, rel) for rd in rds) != ds:
+                raise AssertionError(f"iteration and get() disagree at {n},{t},{cv}")
+            names.add(n)
+        if sorted(names) != sorted(_name_id[x.derelativize(ORIGIN)] for x in txn.iterate_names()):
+            raise AssertionError("iterate_names and iterate_rdatasets disagree")
+    return out
+
+
 def run_driver(case):
     _, zk, rel, rdt, ser, udp, z0, ws = case[:8]
-    z = build_zone(zk, rel, z0)
+    use_async = zk >= 3
+    z = build_zone(zk % 3, rel, z0)
     wires = [wire_of(w) for w in ws]
     q = dns.message.make_query(ORIGIN, rdt)
     n = 0
     code = 0
     a = b = None
+    if use_async:
+        c, n = run_driver_async(z, q, ser, udp, wires)
+        if c.code >= 800:
+            return c
+        return [c.code, n, dump_checked(z, rel)]
     try:
         if udp:
             a, b = socket.socketpair(socket.AF_UNIX, socket.SOCK_DGRAM)
@@ -272,7 +346,7 @@ def run_driver(case):
         if a is not None:
             a.close()
             b.close()
-    return [code, n, dump_zone(z, rel)]
+    return [code, n, dump_checked(z, rel)]
 
 
 def rrset_of_case(rs, rel):
@@ -286,7 +360,7 @@ def rrset_of_case(rs, rel):
 
 def run_feed(case):
     _, zk, rel, rdt, ser, udp, z0, ms = case[:8]
-    z = build_zone(zk, rel, z0)
+    z = build_zone(zk % 3, rel, z0)
     res = []
     try:
         with dns.xfr.Inbound(z, rdt, ser, bool(udp)) as inbound:
@@ -305,7 +379,7 @@ def run_feed(case):
         if c.code >= 800:
             return c
         res.append(c.code)
-    return [res, dump_zone(z, rel)]
+    return [res, dump_checked(z, rel)]
 
 
 def drive_tcp(z, q, ser, wires):
@@ -596,7 +670,12 @@ VALID, FAULT, MUSTERR, ANY = 1, 0, 2, 3
 
 
 def zk_rel(rng):
-    return rng.randrange(3), rng.randrange(2)
+    # 0..2: dns.zone.Zone / dns.versioned.Zone / dns.btreezone.Zone through dns.query._inbound_xfr;
+    # 3..5: the same zone classes through dns.asyncquery._inbound_xfr (asyncio)
+    zk = rng.randrange(3)
+    if rng.random() < 0.25:
+        zk += 3
+    return zk, rng.randrange(2)
 
 
 # ------------------------------------------------------------------ faults
@@ -885,6 +964,19 @@ def must_error_cases(ctx, rng, n):
             recs = ixfr_stream(rng, chain)
             recs = recs[:rng.randint(2, len(recs) - 1)]
             yield "udp-incomplete", mk_case(zk, rel, IXFR, s0, 1, chain[0], msgs_of([recs], IXFR), MUSTERR, None)
+        elif r < 0.66:
+            # a deleted record sent twice, at the start of a later message (a parser that merged the two
+            # into one RRset would hide the inexact deletion)
+            recs = ixfr_stream(rng, chain)
+            soas = [i for i, x in enumerate(recs) if x[2] == SOA]
+            dpos = [i for a_, b_ in zip(soas[1::2], soas[2::2]) for i in range(a_ + 1, b_)]
+            if not dpos:
+                continue
+            p_ = rng.choice(dpos)
+            recs.insert(p_, list(recs[p_]))
+            cuts = sorted(set([p_] + [c for c in rand_cuts(rng, len(recs)) if c < p_ or c > p_ + 1]))
+            msgs = msgs_of(split(recs, cuts), IXFR)
+            yield "dup-delete-split", mk_case(zk, rel, IXFR, s0, 0, chain[0], msgs, MUSTERR, None)
         elif r < 0.8:
             rdt = IXFR if rng.random() < 0.7 else AXFR
             recs = ixfr_stream(rng, chain) if (rdt == IXFR and rng.random() < 0.8) else axfr_stream(rng, chain[-1])
@@ -1133,7 +1225,7 @@ def cases(ctx):
     yield from misc_cases(ctx, rng)
     yield from exhaustive_cases(ctx, rng)
     yield from valid_cases(ctx, rng, ctx.n(500, 4500))
-    yield from must_error_cases(ctx, rng, ctx.n(250, 2500))
+    yield from must_error_cases(ctx, rng, ctx.n(400, 3000))
     yield from fault_cases(ctx, rng, ctx.n(500, 4500))
     yield from malformed_cases(ctx, rng, ctx.n(400, 4500))
     yield from feed_cases(ctx, rng, ctx.n(200, 2000))
